@@ -13,7 +13,7 @@ RULE = ("square systems n=1..8: dense, zero/tiny leading pivots at several steps
 TRUSTED = ["Coq 8.16.1 kernel + vm_compute", "Rust executor /verif/harness (Rat = i128 rationals)", "python driver (generators, Fraction residual oracle, comparators)",
            "hand-written Gallina model coq/Model/Solve.v tied to src/matrix/solve.rs by differential execution"]
 ASSUMPTIONS = ["Rust semantics of Vec/usize as modelled", "float backward stability is searched (1e-11 normwise), not proved"]
-UNPROVED = ["normwise backward error of the f64/Complex instantiation (covered by tie + search; fails for Complex<f64> at extreme magnitudes: recorded finding cplx-sqmod-range)",
+UNPROVED = ["round two (Props/C01.v, package round): in the standard rounding model the computed solution of solve_lu satisfies (A+dA)x = b+db with |dA| <= gamma_3n |L||U| (lu_factor_backward_error, solve_lu_backward_error) and solve_basic likewise with gamma_{n+1}; multipliers |l_ik| <= 1+u under partial pivoting; the triangular solves also at binary64 via Flocq. NOT proved: the growth factor (|L||U| versus |A|), i.e. normwise backward stability itself -- tie + search; fails for Complex<f64> at extreme magnitudes (recorded finding cplx-sqmod-range)",
             "solve_lu_sound / solvers_agree are assembled from package c02's LU theorems (this file's theorems are about solve_basic)"]
 
 MANIFEST = dict(
